@@ -34,7 +34,7 @@ def run_life(res, code, clause_names, replay=None, signature=lambda c, s: None, 
         idx = step if c == 2 else step // 10
         d = {"code": {2: "model-vs-implementation", 3: "C07 monitor", 4: "C08 monitor", 5: "C12 monitor"}.get(c, c),
              "history_index": case["index"], "failing_step": idx,
-             "config": {k: case[k] for k in ("seed", "max", "mode", "min", "init_blind", "join_at_create", "directed", "continue_interval") if k in case}}
+             "config": {k: case[k] for k in ("seed", "max", "mode", "rule", "min", "init_blind", "join_at_create", "directed", "continue_interval") if k in case}}
         if c != 2:
             d["failing_clause"] = clause_names.get(step % 10, step % 10)
         d["steps_up_to_failure"] = case["steps"][max(0, idx - 3): idx + 1]
@@ -43,7 +43,7 @@ def run_life(res, code, clause_names, replay=None, signature=lambda c, s: None, 
     return standard_flow(
         res, hx="life", corr="Life_run", n=0 if replay else NH[res.tier], shard=10 if res.tier == "quick" else 100, replay=replay, plans=None if replay else plans,
         signature=signature, describe=describe, stats=stats, relevant=relevant,
-        unit=lambda c: {k: c[k] for k in ("index", "seed", "max", "mode", "min", "init_blind", "join_at_create", "directed", "continue_interval") if k in c},
+        unit=lambda c: {k: c[k] for k in ("index", "seed", "max", "mode", "rule", "min", "init_blind", "join_at_create", "directed", "continue_interval") if k in c},
         rule="real tables (2..8 seats, ct/mtt, minimum 2 or 3, starting levels incl. break and unset) driven through up to 90 macro steps: "
              "start, signal / withhold settlement-finished (real 2 s gate timeout), play to the next quiescent point, blind updates (also "
              "break / unset levels, also issued from INSIDE the backend's CreateGame), pause, close, release, external set-up, arrivals; "
@@ -60,5 +60,5 @@ def replay_life(res, path, run):
     data = json.load(open(path))
     rc = data["replay_case"]
     tmp = path + ".case.json"
-    json.dump([{k: rc[k] for k in ("index", "seed", "max", "mode", "min", "init_blind", "join_at_create", "directed", "continue_interval") if k in rc}], open(tmp, "w"))
+    json.dump([{k: rc[k] for k in ("index", "seed", "max", "mode", "rule", "min", "init_blind", "join_at_create", "directed", "continue_interval") if k in rc}], open(tmp, "w"))
     return run(res, replay=tmp)
